@@ -68,6 +68,13 @@ CHECKS["C14"] = dict(
    note="Trusted: reference PDA for incompleteness. Not generated: trailing text that could continue S; blank-only inputs.",
    design="4/C14")
 
+CHECKS["C06"] = dict(
+   category="exploration", engine="B exhaustive strings/values x whitespace placements, reference tokenizer, cross-scanner differential",
+   technique="exhaustive enumeration of valid JSON texts (all strings <= 5/6 symbols; all values <= 4/5 nodes x all placements of <= 2/3 whitespace gaps; depth-8 families) with an event-automaton oracle and a three-scanner differential",
+   text="For every enumerated valid JSON text the public NextLexeme stream is replayed through an event automaton that checks nesting, termination by io.EOF, spans inside the input, literal/key spans equal to the reference tokenizer's, container spans bracket to bracket, and that the value rebuilt from events alone equals the reference parse; the schema scanner and (for arrays of scalars) the enum scanner, driven through verif hooks on the same text in four embeddings, must produce the same (type, begin, end) sequence modulo new-line events.",
+   note="Trusted: ref/jsonpda tokenizer/parser (cross-checked against encoding/json on every input). Exponent numerals are excluded from the cross-scanner relation.",
+   design="4/C06")
+
 NOT_YET = {
 }
 
